@@ -38,7 +38,7 @@ extern int x_alloc_active;
 #include <sys/wait.h>
 #endif
 
-#define MAXBUF 8192
+#define MAXBUF 262144
 static struct { unsigned char* p; size_t n; int used; } B[MAXBUF];
 
 static char* line; static size_t linecap;
